@@ -177,7 +177,7 @@ func (vc *VC) globalID(name string) string {
 		} else {
 			vc.W.globalIDs[name] = k
 		}
-		vc.asserts = append(vc.asserts, Eq(id, numI(int64(-k))))
+		vc.addAssert(Eq(id, numI(int64(-k))))
 	}
 	return id
 }
@@ -378,12 +378,12 @@ func (vc *VC) bitop(op, x, y string, t types.Type) string {
 	r := app(f, x, y)
 	if lo, hi, ok := intRange(t); ok {
 		c := vc.forceName("bit", "Int", r)
-		vc.asserts = append(vc.asserts, And(Le(num(lo), c), Le(c, num(hi))))
+		vc.addAssert(And(Le(num(lo), c), Le(c, num(hi))))
 		if op == "|" && lo.Sign() == 0 {
-			vc.asserts = append(vc.asserts, And(Ge(c, x), Ge(c, y), Le(c, Add(x, y))))
+			vc.addAssert(And(Ge(c, x), Ge(c, y), Le(c, Add(x, y))))
 		}
 		if op == "&" && lo.Sign() == 0 {
-			vc.asserts = append(vc.asserts, And(Le(c, x), Le(c, y)))
+			vc.addAssert(And(Le(c, x), Le(c, y)))
 		}
 		return c
 	}
@@ -419,9 +419,9 @@ func (vc *VC) strConcat(st *State, a, b string) string {
 	vc.needStr()
 	vc.declareFun("strcat", []string{"Int", "Int"}, "Int")
 	c := vc.forceName("cat", "Int", app("strcat", a, b))
-	vc.asserts = append(vc.asserts, Eq(app("slen", c), Add(app("slen", a), app("slen", b))))
+	vc.addAssert(Eq(app("slen", c), Add(app("slen", a), app("slen", b))))
 	i := "i"
-	vc.asserts = append(vc.asserts, fmt.Sprintf("(forall ((%s Int)) (! (=> (and (<= 0 %s) (< %s (slen %s))) (= (sbyte %s %s) (ite (< %s (slen %s)) (sbyte %s %s) (sbyte %s (- %s (slen %s)))))) :pattern ((sbyte %s %s))))",
+	vc.addAssert(fmt.Sprintf("(forall ((%s Int)) (! (=> (and (<= 0 %s) (< %s (slen %s))) (= (sbyte %s %s) (ite (< %s (slen %s)) (sbyte %s %s) (sbyte %s (- %s (slen %s)))))) :pattern ((sbyte %s %s))))",
 		i, i, i, c, c, i, i, a, a, i, b, i, a, c, i))
 	return c
 }
@@ -451,7 +451,7 @@ func (vc *VC) convert(st *State, in *ssa.Convert) Val {
 		vc.declareFun("float2int", []string{"Int"}, "Int")
 		c := vc.forceName("f2i", "Int", app("float2int", x.S))
 		lo, hi, _ := intRange(to)
-		vc.asserts = append(vc.asserts, And(Le(num(lo), c), Le(c, num(hi))))
+		vc.addAssert(And(Le(num(lo), c), Le(c, num(hi))))
 		return IntV(c, to)
 	case isFloat(from) && isFloat(to):
 		return IntV(x.S, to)
